@@ -296,14 +296,19 @@ def run(ctx):  # noqa: C901, PLR0912, PLR0915
     common.readers_test_only_for_none(ctx, 'C01.R2')
     n_parts = 0
     for nm_, hf in sorted(repo.cls(CM).methods.items()):
-        for lp in [x for x in walk_no_nested(hf.node) if isinstance(x, ast.For) and 'ReportPart' in unparse(x.iter)]:
+        la_h = local_assignments(hf.node)
+
+        def _over_parts(it):
+            # `for part in report.ReportPart` or over a local that is bound to it (`parts = report.ReportPart`)
+            return 'ReportPart' in unparse(it) or (isinstance(it, ast.Name) and any('ReportPart' in unparse(v) for v in la_h.get(it.id, [])))
+        for lp in [x for x in walk_no_nested(hf.node) if isinstance(x, ast.For) and _over_parts(x.iter)]:
             n_parts += 1
             early = [unparse(x)[:40] for b in lp.body for x in ast.walk(b) if isinstance(x, (ast.Return, ast.Break))]
             ctx.ob('C01.R2', f'{nm_}: every report part is visited', not early,
                    f'{nm_} runs through all report parts' if not early else
                    f'{nm_} leaves the loop over the report parts early ({early}): the parts of the second MDS are dropped while '
                    f'the MdibVersion of the report is taken over', fi=hf, node=lp)
-    ctx.floor('C01.R2', n_parts, 3, 'loops over report parts in ConsumerMdib')
+    ctx.floor('C01.R2', n_parts, 1, 'loops over report parts in ConsumerMdib')
     from .c02 import handouts_are_versioned
     handouts_are_versioned(ctx, 'C01.R2')   # what is committed carries a version the mirrors accept
     common.copies_are_deep(ctx, 'C01.R1')   # what is reported is what was committed: the published copies share nothing
